@@ -191,7 +191,23 @@ int cmdSamples(int argc, char** argv) {
 				NifFile nif;
 				if (loadFromString(nif, f0) != 0) return;
 				std::mt19937_64 r(seed * 977 + i);
-				size_t steps = 2 + r() % 6;
+				// variant 1 of files with BSTriShape geometry: the other vertex layouts the format has - full precision
+				// positions and one to three extra floats per vertex (no sample file uses them)
+				bool layout = false;
+				if (v == 1)
+					for (auto sh : nif.GetShapes())
+						if (auto bs = dynamic_cast<BSTriShape*>(sh)) {
+							if (bs->CanChangePrecision()) bs->SetFullPrecision(true);
+							if (bs->IsFullPrecision()) {
+								size_t ne = 1 + k % 3;
+								for (auto& vd : bs->vertData) {
+									vd.extra.clear();
+									for (size_t e = 0; e < ne; e++) vd.extra.push_back(0.5f + float(e));
+								}
+								layout = true;
+							}
+						}
+				size_t steps = layout ? 0 : 2 + r() % 6;
 				for (size_t s = 0; s < steps; s++) applyGraphOp(nif, jparse(randomGraphOp(nif, r)));
 				// a chain of loose named nodes stored child before parent, and a node with consecutive empty child entries
 				if (v % 2 == 0) {
